@@ -45,8 +45,8 @@ pub fn metrics_on(instruments: usize) -> bool { instruments & 15 != 0 }
 
 #[derive(Debug, Clone)]
 pub struct Cfg { pub kind: Kind, pub instruments: usize, pub limit: u32, pub timeout_ms: u64, pub seq: Vec<Class>,
-                 /// fallible futures only: the (async) error callback sleeps a virtual millisecond before it completes
-                 pub slow_on_err: bool }
+                 /// fallible futures only: the (async) error callback sleeps this many virtual milliseconds before it completes (0 = completes at once)
+                 pub slow_on_err: u64 }
 
 #[derive(Debug, Clone, Default)]
 struct Closing { calls: u32, at: u64, status: Option<ExecutorStatus>, start_delta: u64, finish_delta: u64, ok: u32, timed_out: u32, failed: u32 }
@@ -75,7 +75,7 @@ fn run_generic<const I: usize>(cfg: &Cfg) -> (Probes, Closing, bool) {
         let on_err_sync = move |e: BoxErr| { pe.lock().unwrap().on_err.push(e.to_string()) };
         match kind {
             Kind::FalFut => { let p = p2.clone(); let s = futures::stream::iter(seq.into_iter().enumerate()).map(move |(i, c)| item_work(i, c, p.clone())); let oe = on_err_sync.clone(); let ph = p2.clone(); let slow = slow_on_err;
-                exec.clone().spawn_executor(limit, move |e| { oe(e); let ph = ph.clone(); async move { ph.lock().unwrap().err_handlers_begun += 1; if slow { tokio::time::sleep(Duration::from_millis(1)).await } ph.lock().unwrap().err_handlers_done += 1; } }, cb, s) }
+                exec.clone().spawn_executor(limit, move |e| { oe(e); let ph = ph.clone(); async move { ph.lock().unwrap().err_handlers_begun += 1; if slow != 0 { tokio::time::sleep(Duration::from_millis(slow)).await } ph.lock().unwrap().err_handlers_done += 1; } }, cb, s) }
             Kind::Fut => { let p = p2.clone(); let s = futures::stream::iter(seq.into_iter().enumerate()).map(move |(i, c)| { let f = item_work(i, c, p.clone()); async move { f.await.unwrap_or(u32::MAX) } }); exec.clone().spawn_futures_executor(limit, cb, s) }
             Kind::Fal | Kind::NonFut | Kind::Plain => {
                 // non-future items: "processing" an item is the executor taking it from the stream
@@ -142,6 +142,9 @@ pub fn judge(cfg: &Cfg) -> Vec<(String, String)> {
         let mut got = p.on_err.clone(); want.sort(); got.sort();
         if want != got { v.push(("error-callback".into(), format!("the error callback must run once for each of {:?}; it ran for {:?}: {ctx}", want, got))) }
     }
+    if cfg.kind == Kind::FalFut && p.err_handlers_begun != p.err_handlers_done {
+        v.push(("error-callback-cancelled".into(), format!("{} error handler(s) were started for failed items, {} ran to their end: {ctx}", p.err_handlers_begun, p.err_handlers_done)));
+    }
     if metrics_on(cfg.instruments) {
         if c.ok + c.timed_out + c.failed != n as u32 { v.push(("counters-sum".into(), format!("{n} items, but ok + timed-out + failed = {}: {ctx}", c.ok + c.timed_out + c.failed))) }
         else if (c.ok, c.timed_out, c.failed) != (exp_ok, exp_timed_out, exp_failed) { v.push(("counters-split".into(), format!("expected ok/timed-out/failed = {exp_ok}/{exp_timed_out}/{exp_failed}: {ctx}"))) }
@@ -151,15 +154,15 @@ pub fn judge(cfg: &Cfg) -> Vec<(String, String)> {
 
 pub fn configs(tier: Tier) -> Vec<Cfg> {
     let mut v = Vec::new();
-    let max_len = match tier { Tier::Quick => 3, Tier::Thorough => 5 };
-    let limits: Vec<u32> = match tier { Tier::Quick => vec![1, 2, 3, 8], Tier::Thorough => vec![1, 2, 3, 4, 8] };
+    let max_len = match tier { Tier::Quick => 4, Tier::Thorough => 6 };
+    let limits: Vec<u32> = match tier { Tier::Quick => vec![1, 2, 3, 4, 8], Tier::Thorough => vec![1, 2, 3, 4, 8] };
     for kind in [Kind::FalFut, Kind::Fut, Kind::Fal, Kind::NonFut, Kind::Plain] {
         for timeout_ms in if kind.futures() { vec![0, TIMEOUT_MS] } else { vec![0] } {
-            let len = if kind.futures() { if kind == Kind::FalFut && tier == Tier::Thorough { 4 } else { max_len } } else { max_len + 1 };
+            let len = if kind.futures() { if kind == Kind::FalFut { max_len - 1 } else { max_len } } else { max_len + 1 };
             for seq in sequences(&kind.alphabet(timeout_ms != 0), len) {
-                for (instruments, _) in INSTRUMENTS { for limit in &limits { v.push(Cfg { kind, instruments, limit: *limit, timeout_ms, seq: seq.clone(), slow_on_err: false }) } }
-                // the same workload with an error handler that takes a (virtual) millisecond
-                if kind == Kind::FalFut && seq.iter().any(|c| c.is_err()) && seq.len() <= 3 { for instruments in [0usize, 7] { for limit in [1u32, 2, 3] { v.push(Cfg { kind, instruments, limit, timeout_ms, seq: seq.clone(), slow_on_err: true }) } } }
+                for (instruments, _) in INSTRUMENTS { for limit in &limits { v.push(Cfg { kind, instruments, limit: *limit, timeout_ms, seq: seq.clone(), slow_on_err: 0 }) } }
+                // the same workload with an error handler that takes one (virtual) millisecond, or longer than the whole time budget of an item
+                if kind == Kind::FalFut && seq.iter().any(|c| c.is_err()) && seq.len() <= 3 { for slow_on_err in [1u64, 2 * TIMEOUT_MS + 2] { for instruments in [0usize, 7] { for limit in [1u32, 2, 3] { v.push(Cfg { kind, instruments, limit, timeout_ms, seq: seq.clone(), slow_on_err }) } } } }
             }
             // one item keeps the thread busy past the time budget in wall-clock terms while its siblings fail / succeed on the virtual clock
             if kind.futures() && timeout_ms != 0 {
@@ -167,7 +170,7 @@ pub fn configs(tier: Tier) -> Vec<Cfg> {
                 for seq in sequences(&others, 2) {
                     for pos in 0..=seq.len() {
                         let mut s = seq.clone(); s.insert(pos, Class::HogOk);
-                        for instruments in [7usize, 107] { for limit in [1u32, 2, 3] { v.push(Cfg { kind, instruments, limit, timeout_ms, seq: s.clone(), slow_on_err: false }) } }
+                        for instruments in [7usize, 107] { for limit in [1u32, 2, 3] { v.push(Cfg { kind, instruments, limit, timeout_ms, seq: s.clone(), slow_on_err: 0 }) } }
                     }
                 }
             }
@@ -180,9 +183,9 @@ pub fn configs(tier: Tier) -> Vec<Cfg> {
 pub const C12_KINDS: [&str; 5] = ["close-callback-missing", "close-callback-repeated", "close-callback-early", "status", "finish-before-start"];
 
 pub fn tuples(prop: &'static str, tier: Tier) -> Vec<Tuple> {
-    configs(tier).into_iter().filter(|cfg| if prop == "C11" { !cfg.slow_on_err } else { cfg.instruments == 7 || cfg.instruments == 0 || cfg.seq.len() <= 2 }).map(|cfg| {
+    configs(tier).into_iter().filter(|cfg| if prop == "C11" { true } else { cfg.instruments == 7 || cfg.instruments == 0 || cfg.seq.len() <= 2 }).map(|cfg| {
         let iname = INSTRUMENTS.iter().find(|(i, _)| *i == cfg.instruments).map(|(_, n)| *n).unwrap_or("?");
-        Tuple { family: format!("executor-{}/{}/{}{}", cfg.kind.name(), if cfg.timeout_ms == 0 { "no-timeout".to_string() } else { format!("timeout-{}ms", cfg.timeout_ms) }, iname, if cfg.slow_on_err { "/slow-error-handler" } else { "" }),
+        Tuple { family: format!("executor-{}/{}/{}{}", cfg.kind.name(), if cfg.timeout_ms == 0 { "no-timeout".to_string() } else { format!("timeout-{}ms", cfg.timeout_ms) }, iname, if cfg.slow_on_err != 0 { format!("/error-handler-{}ms", cfg.slow_on_err) } else { String::new() }),
                 rung: format!("L{}-{}", cfg.limit, seq_name(&cfg.seq)),
                 run: Box::new(move || judge(&cfg).into_iter().filter(|(k, _)| C12_KINDS.contains(&k.as_str()) == (prop == "C12")).collect()) }
     }).collect()
